@@ -392,7 +392,8 @@ def check_dask_state(col, obj, m, hist, case):
                 if sorted(got) != sorted(want):
                     col.violation("dd.cx_wrong_column", case, f"after {hist[-3:]}: dask cx[{box}] rows {got}, the active column {m.active} selects {want}", op=op)
         except Exception as ex:
-            col.violation("dd.cx.raises", case, f"after {hist[-3:]}: {type(ex).__name__}: {str(ex)[:150]}", op=op)
+            col.violation("dd.cx.raises", case, f"after {hist[-3:]}: {type(ex).__name__}: {str(ex)[:150]}", op=op,
+                          after_pack=any(h[0] == "d_pack" for h in hist), err=type(ex).__name__)
     # partition bounds are those of the active column
     try:
         pb = obj.geometry.partition_bounds
@@ -439,7 +440,9 @@ def explore(col, active, depth, shard, nshards, scratch, pts_name="pts"):
             try:
                 nxt = apply_real(cur, cm, o, scratch)
             except Exception as ex:
-                if o[0] == "d_pack":
+                if o[0] == "d_pack" or (isinstance(ex, AssertionError) and any(h[0] == "d_pack" for h in hist + [op])):
+                    # dask cannot split a frame with fewer distinct Hilbert distances than requested partitions and only
+                    # notices when the graph is built (exempt, as in C09)
                     col.count("pack_raised_exempt")
                     return None
                 col.violation("op.raises", case_for(hist + [op]), f"{o} raised {type(ex).__name__}: {str(ex)[:200]}", op=o[0])
@@ -539,7 +542,12 @@ def replay(ctx, case):
             if type(r) is not pd.DataFrame:
                 col.violation("pd.nogeom_type", case, f"type {type(r).__name__}")
             return col.violations
-        cur = apply_real(cur, cm, o, scratch)
+        try:
+            cur = apply_real(cur, cm, o, scratch)
+        except AssertionError:
+            if any(h[0] == "d_pack" for h in hist + [o]):
+                return col.violations       # dask cannot split the packed frame: exempt
+            raise
         cm = apply_model(cm, o)
         hist.append(o)
     if cm.kind == "pd":
